@@ -289,8 +289,8 @@ func (c *Check) idLayout() {
 		return
 	}
 	pairs := []pair{
-		{"types.GenerateRequestContextID", "types.SplitRequestContextID", "ContextIDLen", func() (int, string) { return 32, "A-ID (32-byte transaction hash)" }},
-		{"types.GenerateRequestID", "types.SplitRequestID", "RequestIDLen", func() (int, string) { return ctxLen, "ContextIDLen" }},
+		{c.typesName("GenerateRequestContextID"), c.typesName("SplitRequestContextID"), "ContextIDLen", func() (int, string) { return 32, "A-ID (32-byte transaction hash)" }},
+		{c.typesName("GenerateRequestID"), c.typesName("SplitRequestID"), "RequestIDLen", func() (int, string) { return ctxLen, "ContextIDLen" }},
 	}
 	for _, pr := range pairs {
 		g := c.mustFn("C18.6", pr.gen)
@@ -415,7 +415,7 @@ func (c *Check) issueOrder() {
 		var genEv *Event
 		for _, pa := range c.P.PathsOf(f) {
 			for _, ev := range pa.Events {
-				if ev.Kind == EvCall && ev.CI.name == "types.GenerateRequestID" {
+				if ev.Kind == EvCall && ev.CI.name == c.typesName("GenerateRequestID") {
 					genEv = ev
 				}
 			}
@@ -456,7 +456,7 @@ func (c *Check) issueOrder() {
 							got["Set "+e.Family] = true
 							if e.Family == "0x13" || e.Family == "0x15" {
 								// the key must be the generated id
-								if !e.Key.ContainsOp("types.GenerateRequestID") {
+								if !e.Key.ContainsOp(c.typesName("GenerateRequestID")) {
 									missing["key of Set "+e.Family+" is not the generated id"] = true
 								}
 							}
